@@ -112,7 +112,10 @@ func judge(p plan) sched.Judge {
 					ErrorMessage string `json:"errorMessage"`
 				}
 				json.Unmarshal(inv.Body, &m)
-				if m.ErrorType != "Function.ResponseSizeTooLarge" || !strings.Contains(m.ErrorMessage, fmt.Sprint(p.respSize[i])) || !strings.Contains(m.ErrorMessage, fmt.Sprint(limit)) {
+				// both sizes, each in its role: "payload size (<size>) exceeded maximum allowed payload size (<limit>)"
+				iSize, iLimit := strings.Index(m.ErrorMessage, fmt.Sprint(p.respSize[i])), strings.LastIndex(m.ErrorMessage, fmt.Sprint(limit))
+				iMax := strings.Index(m.ErrorMessage, "maximum")
+				if m.ErrorType != "Function.ResponseSizeTooLarge" || iSize < 0 || iLimit < 0 || (iMax >= 0 && !(iSize < iMax && iMax < iLimit)) {
 					failf("2", fmt.Sprintf("oversize-error-body:%s", rel(p.respSize[i])), "invocation %d: caller got status %d body %q, expected Function.ResponseSizeTooLarge naming %d and %d", i, inv.Status, trunc(inv.Body), p.respSize[i], limit)
 				}
 				outs = append(outs, "too-large")
